@@ -29,7 +29,8 @@ func conversionError(modifier string, value any, typ reflect.Type) error {
 	if ref, ok := value.(reflect.Value); ok {
 		value = ref.Interface()
 	}
-	return typeErrorf("can't convert %s%T(%v) to type %s", modifier, value, value, typ)
+	// the message shows the values that pointers and Drops inside a container stand for, not their addresses
+	return typeErrorf("can't convert %s%T(%v) to type %s", modifier, value, DeepToLiquid(value), typ)
 }
 
 // plainString turns a value of a named string type (other than json.Number) into a string.
